@@ -13,18 +13,20 @@ import OSq.Model.Front
   * `bindArgs_le`, `bindArgs_length`   at least as many arguments as parameters; one entry per parameter.
   * `bindArgs_idem`            binding the converted arguments again gives the same environment.
   * `bindArgs_of_kinds`        arguments already of the declared kinds are bound unchanged.
+  * `bindArgs_mem`, `bindArgs_mem_bit`   every entry is the conversion of an argument; bit entries are bit arguments.
   * `bindArgs_mem_qubit`       a qubit entry stems from a qubit argument or an int argument (conversion `Qubit(int)`).
   * `eval_built` / `evalGate_wf`   a gate definition evaluates to `bsr`/`ctrl` nodes only (`GExpr` has no matrix
                                constructor, so `Gate.shapeOk` is trivially true), every `ctrl c g'` node has
                                `c ∉ g'.operands` and `g'.operands` duplicate free (`Gate.ctrlOk`, checked by `mkCtrl`),
                                hence `hasDup g.operands = false`.
-  * `eval_operands`            (`gexpr_operands_subset`) for a table obeying `tableTyped`, every operand is the value
+  * `eval_operands` (= `gexpr_operands_subset_typed`)   for a table obeying `tableTyped`, every operand is the value
                                of a qubit entry of the environment.
-  * `eval_operands_partial`    arbitrary table: … of a qubit *or int* entry (the unrestricted statement is false).
+  * `eval_operands_partial` (= `gexpr_operands_subset_partial`)   arbitrary table: … of a qubit *or int* entry (the unrestricted statement is false).
   * `callGate_ok`, `callMeasure_ok`, `callReset_ok`   success of the wrappers, spelled out.
   * `callGate_idem`, `callMeasure_idem`, `callReset_idem`   re-running the generator on the recorded name and
                                arguments reproduces the statement (coherence of `generator` / `arguments`).
   * `callGate_operands(_partial)`   operands are qubit (or int) entries of the recorded arguments.
+  * `defaultLib_typed`         the default gate table obeys `tableTyped`.
   * `gateName_ok`, `gateName_error`   `get_gate_f`: gate set first, then aliases, else `ValueError`.
   * `mkAxis_error_value`, `mkBSR_error_value`     these constructors fail with `ValueError` only.
   Also: `Toy`, a toy `Scalar` instance (integers, trivial transcendental functions) used only to state *closed*
@@ -60,6 +62,29 @@ theorem All₂.imp {β γ : Type} {R S : β → γ → Prop} (hRS : ∀ a b, R a
   induction h with
   | nil => exact .nil
   | cons hab _ ih => exact .cons (hRS _ _ hab) ih
+
+theorem All₂.imp_mem {β γ : Type} {R S : β → γ → Prop} {l r} (h : All₂ R l r)
+    (hRS : ∀ a b, a ∈ l → R a b → S a b) : All₂ S l r := by
+  induction h with
+  | nil => exact .nil
+  | cons hab _ ih =>
+    exact .cons (hRS _ _ (by simp) hab) (ih fun a b ha => hRS a b (List.mem_cons_of_mem _ ha))
+
+theorem All₂.comp {β γ δ : Type} {R : β → γ → Prop} {S : γ → δ → Prop} {l m r} (h₁ : All₂ R l m)
+    (h₂ : All₂ S m r) : All₂ (fun a c => ∃ b, R a b ∧ S b c) l r := by
+  induction h₁ generalizing r with
+  | nil => cases h₂; exact .nil
+  | cons hab _ ih => cases h₂ with
+    | cons hbc hrest => exact .cons ⟨_, hab, hbc⟩ (ih hrest)
+
+theorem All₂.mem_right {β γ : Type} {R : β → γ → Prop} {l r} (h : All₂ R l r) {b : γ} (hb : b ∈ r) :
+    ∃ a ∈ l, R a b := by
+  induction h with
+  | nil => simp at hb
+  | cons hab _ ih =>
+    rcases List.mem_cons.1 hb with rfl | hb
+    · exact ⟨_, by simp, hab⟩
+    · obtain ⟨a, ha, h⟩ := ih hb; exact ⟨a, List.mem_cons_of_mem _ ha, h⟩
 
 theorem All₂.length_eq {β γ : Type} {R : β → γ → Prop} {l r} (h : All₂ R l r) : l.length = r.length := by
   induction h <;> simp [*]
@@ -229,6 +254,24 @@ theorem bindArgs_mem_qubit : ∀ {ps : List (String × Kind)} {as : List (Arg α
     · rcases bindArgs_mem_qubit hr hm with h | h
       · exact .inl (List.mem_cons_of_mem _ h)
       · exact .inr (List.mem_cons_of_mem _ h)
+
+/-- every entry of the environment is the conversion of one of the arguments -/
+theorem bindArgs_mem : ∀ {ps : List (String × Kind)} {as : List (Arg α)} {env : Env α} {n : String} {v : Arg α},
+    bindArgs ps as = .ok env → (n, v) ∈ env → ∃ a ∈ as, ∃ k, convArg k a = some v
+  | [], _, env, _, _, h, hm => by simp [bindArgs] at h; subst h; simp at hm
+  | _ :: _, [], env, _, _, h, _ => by simp [bindArgs] at h
+  | (n, k) :: ps, a :: as, env, n', v, h, hm => by
+    obtain ⟨a', rest, ha, hr, rfl⟩ := bindArgs_cons_ok.1 h
+    rcases List.mem_cons.1 hm with heq | hm
+    · cases heq; exact ⟨a, by simp, k, ha⟩
+    · obtain ⟨a₀, h₀, hk⟩ := bindArgs_mem hr hm
+      exact ⟨a₀, List.mem_cons_of_mem _ h₀, hk⟩
+
+theorem bindArgs_mem_bit {ps : List (String × Kind)} {as : List (Arg α)} {env : Env α} {n : String} {b : Int}
+    (h : bindArgs ps as = .ok env) (hm : (n, Arg.bit b) ∈ env) : Arg.bit b ∈ as := by
+  obtain ⟨a, ha, k, hk⟩ := bindArgs_mem h hm
+  cases k <;> cases a <;> simp [convArg] at hk
+  subst hk; exact ha
 
 theorem Env.find?_mem {env : Env α} {n : String} {v : Arg α} (h : env.find? n = some v) : (n, v) ∈ env := by
   simp only [Env.find?, Option.map_eq_some_iff] at h
@@ -607,6 +650,19 @@ theorem eval_operands_partial (atol : α) (table : List GateDef) :
     rw [hb] at hb'; cases hb'
     exact ih env' g he
 
+/-- alias under the name of the work plan -/
+theorem gexpr_operands_subset_typed (atol : α) (table : List GateDef) (hT : tableTyped table = true)
+    (fuel : Nat) (env : Env α) (loc : List (String × α)) (body : GExpr) (g : Gate α)
+    (ht : body.typed table env.sig = true) (h : body.eval atol table fuel env loc = .ok g) :
+    ∀ q ∈ g.operands, ∃ n, env.find? n = some (.qubit q) :=
+  eval_operands atol table hT fuel env loc body g ht h
+
+theorem gexpr_operands_subset_partial (atol : α) (table : List GateDef)
+    (fuel : Nat) (env : Env α) (loc : List (String × α)) (body : GExpr) (g : Gate α)
+    (h : body.eval atol table fuel env loc = .ok g) :
+    ∀ q ∈ g.operands, ∃ n, env.find? n = some (.qubit q) ∨ env.find? n = some (.int q) :=
+  eval_operands_partial atol table fuel env loc body g h
+
 /-! ### the `named_*` wrappers -/
 
 theorem callGate_ok {atol : α} {table : List GateDef} {name : String} {args : List (Arg α)}
@@ -770,6 +826,9 @@ theorem gateName_error {lib : GateLib} {n : String} {e : Err} :
         exact absurd (by simpa using h2) (h _ h1)
   · simp
 
+/-- the default library obeys the discipline `tableTyped` -/
+theorem defaultLib_typed : tableTyped defaultLib.table = true := by decide
+
 /-! ### constructor failures -/
 
 theorem mkAxis_error_value {v : Vec3 α} {e : Err} (h : mkAxis v = .error e) : e = .value := by
@@ -854,3 +913,4 @@ end OSq
 #print axioms OSq.callGate_operands
 #print axioms OSq.gateName_ok
 #print axioms OSq.gateName_error
+#print axioms OSq.defaultLib_typed
